@@ -16,6 +16,10 @@ def run(ctx):
                 "E-UNITS: the exporter/importer never mix variable numbers and level numbers (.orderedvarnames, .ids, "
                 ".permids are permutations of each other). E-LIN: the importer releases every edge on its error paths.")
     edddmp.run(ctx, F)
+    ctx.explain("E-DDDMP.strict: every sortedness validation of an id list in the importer rejects equal neighbours "
+                "(duplicate ids are malformed input that later code would panic on).")
+    n = edddmp.check_strict_sortedness(ctx, F)
+    ctx.floor("E-DDDMP.strict", "sortedness predicates in dddmp::import", n, 2)
     nfn, _ = eunits.run(ctx, F, crates=("oxidd_dump",))
     ctx.floor("E-UNITS", "oxidd-dump bodies analysed", nfn, 60)
     st = elin.run(ctx, F, crates=("oxidd_dump",), skip_guard_table=True)
